@@ -475,11 +475,12 @@ def tablesKnown : Bool :=
   (nextDrainArms == [] || sameArms nextDrainArms [.recv chData, .dflt]) &&
   sendSelects == 1 && trySendSelects == 2 && nextSelects == (if nextDrains then 2 else 1)
 
-/-- `Pipe` hands the same three channels and the same error cell to both halves, the two broadcast
-channels are unbuffered, `Close` stores the error before it closes `senderDone`. -/
+/-- `Pipe` hands the same three channels and the same error cell to both halves, the data channel is
+`make(chan T, bufferSize)` (its capacity expression is `chanCap`), the two broadcast channels are unbuffered, `Close` stores the error before it closes `senderDone`. -/
 def wiringOK : Bool :=
   senderWiring == [("c", "c"), ("senderDone", "senderDone"), ("senderErr", "senderErr"), ("streamDone", "streamDone")] &&
   receiverWiring == senderWiring &&
+  makes.lookup "c" == some "make(chanT,bufferSize)" &&
   makes.lookup "senderDone" == some "make(chanstruct{})" &&
   makes.lookup "streamDone" == some "make(chanstruct{})" &&
   makes.lookup "senderErr" == some "new(error)" &&
